@@ -2,40 +2,135 @@
   C15 — State saving is atomic and converges to the latest state.
   Property theorems only; the model is HapModel/Persist.lean, the invariants Proofs/Persist.lean.
 
-  `exec locked snap ls (initSys init) = some s` reads: `s` is the state of process + directory
-  after the schedule `ls` — any interleaving of pairing changes (`mutate`, each submitting a save
-  job), extra save jobs (`spawn`), steps of any job (`adv j`), raised errors at any I/O step
-  (`fault j`), state changes with no save after them (`change`, absent from the repaired code) and a
-  process kill (`crash`) — started with `init` in the state file.  Every theorem
-  quantifies over all schedules, all numbers of jobs and every serialisation function `snap`.
+  `exec locked slocked ser ls (initSys init mem0) = some s` reads: `s` is the state of process +
+  directory after the schedule `ls` — any interleaving of state changes on the changing thread
+  (`mbegin; mwrite c …; mend true`, each store a step of its own, the change ending with the
+  submission of a save job), extra save jobs (`spawn`), steps of any job (`adv j`: every I/O call
+  and every single attribute read of the encoder is a step), raised errors at any such step
+  (`fault j`), state changes with no save after them (`mend false`, absent from the repaired code)
+  and a process kill (`crash`) — started with `init` in the state file and `mem0` in memory.
+  `locked` = the persist lock of the first repair, `slocked` = `state.lock` of the second
+  (design/fixes/C15-mixed-snapshot.patch); the repaired code is `exec true true`.  `s.hist` is the
+  list of memory states at the boundaries of changes: "the states that existed".  Every theorem
+  quantifies over all schedules, all numbers of jobs, all numbers of state components and every
+  serialisation function `ser`.
 -/
 import Proofs.Persist
 namespace Hap.Persist
 
-/-- a concrete two-chunk serialisation -/
-def demoSnap (v : Nat) : Content := [2 * v, 2 * v + 1]
+/-- a concrete injective serialisation: one chunk per component -/
+def demoSer (v : Vec) : Content := v
 
-/-- Atomicity, for every schedule, fault sequence and crash point, with or without the lock:
-    the state file holds its initial content or the *complete* serialisation of a state version
-    that existed — never a partial write; and a job that ended, by returning or by re-raising
-    after its cleanup ran ("handled failure"), has left no temp file.  The statement holds in
-    every reachable state, in particular in the state frozen by a `crash` at any point. -/
-theorem C15_atomic (locked : Bool) (snap : Nat → Content) (init : Option Content)
-    (ls : List Label) (s : Sys) (h : exec locked snap ls (initSys init) = some s) :
-    (s.target = init ∨ ∃ v, v ≤ s.ver ∧ s.target = some (snap v)) ∧
+/-- The history only grows, so the state the accessory started with stays in it. -/
+theorem hist_mono {locked slocked ser} (ls : List Label) {s s' : Sys} {v : Vec}
+    (hv : v ∈ s.hist) (h : exec locked slocked ser ls s = some s') : v ∈ s'.hist := by
+  induction ls generalizing s with
+  | nil => simp [exec] at h; subst h; exact hv
+  | cons l ls ih =>
+    simp only [exec] at h
+    split at h
+    · next s1 h1 =>
+      refine ih ?_ h
+      obtain ⟨_, hc⟩ := step_cases h1
+      rcases hc with ⟨_, _, _, e⟩ | ⟨c, _, _, e⟩ | ⟨b, _, _, e⟩ | ⟨_, e⟩ | ⟨j, _, e⟩ |
+        ⟨j, _, e⟩ | ⟨_, e⟩ | ⟨j, _, _, e⟩
+      · subst e; exact hv
+      · subst e; exact hv
+      · subst e; cases b <;> simp [spawn, hv]
+      · subst e; exact hv
+      · have : s1.hist = s.hist := by
+          unfold adv at e
+          split at e
+          all_goals (try split at e)
+          all_goals (try split at e)
+          all_goals (first | (cases e; done) | (injection e with e; subst e; rfl))
+        rw [this]; exact hv
+      · have : s1.hist = s.hist := by
+          unfold fault at e
+          split at e
+          all_goals (first | (cases e; done) | (injection e with e; subst e; rfl))
+        rw [this]; exact hv
+      · subst e; exact hv
+      · subst e; exact hv
+    · cases h
+
+/-- Atomicity (repaired code: `state.lock`; with or without the persist lock), for every schedule,
+    every fault sequence and every crash point: the state file holds its initial content or the
+    *complete* serialisation of a state that existed at a change boundary — never a partial write
+    and never a mix of two states; and a job that ended, by returning or by re-raising after its
+    cleanup ran ("handled failure"), has left no temp file.  The statement holds in every reachable
+    state, in particular in the state frozen by a `crash` at any point. -/
+theorem C15_atomic (locked : Bool) (ser : Vec → Content) (init : Option Content) (mem0 : Vec)
+    (ls : List Label) (s : Sys) (h : exec locked true ser ls (initSys init mem0) = some s) :
+    (s.target = init ∨ ∃ v, v ∈ s.hist ∧ s.target = some (ser v)) ∧
     (∀ j r, (s.jobs j = .done r ∨ s.jobs j = .unlock r) → r ≠ .cleanupRaised →
       s.temps j = none) := by
-  have inv := atomInv_exec ls (atomInv_init snap init) h
+  have inv := atomInv_exec ls (atomInv_init ser init mem0) h
+  have sinv := snapInv_exec ls (atomInv_init ser init mem0) (snapInv_init ser init mem0) h
+  refine ⟨sinv.target, ?_⟩
+  intro j r hj hr
+  have := inv.jobs j
+  unfold JobOk at this
+  rcases hj with hj | hj <;> rw [hj] at this <;> exact this hr
+
+/-- The part of atomicity that needs no lock at all (any variant of the code, all schedules, faults,
+    crash points): the state file is never a partial write — it is its initial content or the
+    complete serialisation of what one save read — and a handled failure leaves no temp file. -/
+theorem C15_never_partial (locked slocked : Bool) (ser : Vec → Content) (init : Option Content)
+    (mem0 : Vec) (ls : List Label) (s : Sys)
+    (h : exec locked slocked ser ls (initSys init mem0) = some s) :
+    (s.target = init ∨ ∃ v, s.target = some (ser v)) ∧
+    (∀ j r, (s.jobs j = .done r ∨ s.jobs j = .unlock r) → r ≠ .cleanupRaised →
+      s.temps j = none) := by
+  have inv := atomInv_exec ls (atomInv_init ser init mem0) h
   refine ⟨inv.target, ?_⟩
   intro j r hj hr
   have := inv.jobs j
   unfold JobOk at this
   rcases hj with hj | hj <;> rw [hj] at this <;> exact this hr
 
+/-- What a save reads is one state (repaired code, all schedules): while a job is inside
+    `encoder.persist` no change of the state is in progress and what it has read so far is a prefix
+    of the present memory; the snapshot a job carries to `os.replace` is a state that existed. -/
+theorem C15_snapshot_is_a_state (locked : Bool) (ser : Vec → Content) (init : Option Content)
+    (mem0 : Vec) (ls : List Label) (s : Sys)
+    (h : exec locked true ser ls (initSys init mem0) = some s) (j : Nat) :
+    (∀ got, s.jobs j = .reading got → s.chg = false ∧ got = s.mem.take got.length) ∧
+    (∀ v, (s.jobs j).carries = some v → v ∈ s.hist) := by
+  have sinv := snapInv_exec ls (atomInv_init ser init mem0) (snapInv_init ser init mem0) h
+  have hj := sinv.jobs j
+  unfold SnapOk at hj
+  constructor
+  · intro got hg
+    rw [hg] at hj
+    refine ⟨?_, hj.2⟩
+    cases hc : s.chg with
+    | false => rfl
+    | true => have := sinv.chgHeld hc; rw [hj.1] at this; cases this
+  · intro v hv
+    cases hpc : s.jobs j <;> rw [hpc] at hj hv <;> simp [Pc.carries] at hv
+    · subst hv; exact hj.2
+    · subst hv; exact hj
+    · subst hv; exact hj
+
+/-- Crash recovery: whatever the schedule and wherever the process dies, the next start — which
+    reads nothing but the state file (`load`), ignoring stray temp files — restores a state that
+    existed, provided the loader inverts the encoder (C14's round trip) and the accessory started
+    from a stored copy of its memory. -/
+theorem C15_crash_recovery (locked : Bool) (ser : Vec → Content) (parse : Content → Option Vec)
+    (hp : ∀ v, parse (ser v) = some v) (mem0 : Vec) (ls : List Label) (s : Sys)
+    (h : exec locked true ser ls (initSys (some (ser mem0)) mem0) = some s) :
+    ∃ v, v ∈ s.hist ∧ s.target.bind parse = some v := by
+  have ha := (C15_atomic locked ser (some (ser mem0)) mem0 ls s h).1
+  rcases ha with e | ⟨v, hv, e⟩
+  · exact ⟨mem0, hist_mono ls (by simp [initSys]) h, by rw [e]; simp [hp]⟩
+  · exact ⟨v, hv, by rw [e]; simp [hp]⟩
+
 /-- A crash freezes everything: no label is enabled after it, so the directory (state file and
     stray temp files) stays exactly as it was at the crash point. -/
-theorem C15_crash_freezes (locked : Bool) (snap : Nat → Content) (s s' : Sys) (ls : List Label)
-    (hc : s.crashed = false) (h : exec locked snap (.crash :: ls) s = some s') :
+theorem C15_crash_freezes (locked slocked : Bool) (ser : Vec → Content) (s s' : Sys)
+    (ls : List Label) (hc : s.crashed = false)
+    (h : exec locked slocked ser (.crash :: ls) s = some s') :
     ls = [] ∧ s'.target = s.target ∧ s'.temps = s.temps := by
   simp only [exec, step, hc] at h
   cases ls with
@@ -43,24 +138,29 @@ theorem C15_crash_freezes (locked : Bool) (snap : Nat → Content) (s s' : Sys) 
   | cons l ls => simp [exec, step] at h
 
 /-- Mutual exclusion in the repaired code: two jobs are never both between acquiring and
-    releasing the lock (all schedules, faults and crash included). -/
-theorem C15_mutex (snap : Nat → Content) (init : Option Content) (ls : List Label) (s : Sys)
-    (h : exec true snap ls (initSys init) = some s) (i j : Nat)
+    releasing the persist lock (all schedules, faults and crash included). -/
+theorem C15_mutex (slocked : Bool) (ser : Vec → Content) (init : Option Content) (mem0 : Vec)
+    (ls : List Label) (s : Sys)
+    (h : exec true slocked ser ls (initSys init mem0) = some s) (i j : Nat)
     (hi : (s.jobs i).inCS = true) (hj : (s.jobs j).inCS = true) : i = j :=
-  mutex_unique (mutex_exec ls (mutex_init init) h) hi hj
+  mutex_unique (mutex_exec ls (mutex_init init mem0) h) hi hj
 
-/-- Convergence for the repaired code (lock around the whole body, snapshot inside): for every
-    fault-free schedule in which every state change submits its save afterwards (`mutate`; no bare
-    `change`) — any number of pairing changes, any number of extra jobs, interleaved in any
-    order — once at least one job was submitted and every
-    submitted job has finished, the state file is the complete serialisation of the *latest*
-    state version. -/
-theorem C15_converge (snap : Nat → Content) (init : Option Content) (ls : List Label) (s : Sys)
-    (h : exec true snap ls (initSys init) = some s) (hq : ∀ l ∈ ls, l.quiet = true)
-    (hjobs : ∃ j, s.jobs j ≠ .unspawned) (hdone : Quiescent s) :
-    s.target = some (snap s.ver) := by
-  have hc := conv_exec (init := init) ls (atomInv_init snap init) (mutex_init init)
-    (conv_init snap init) hq h
+/-- Convergence for the repaired code (persist lock around the whole body, reads under
+    `state.lock`): for every fault-free schedule in which every state change submits its save
+    afterwards (`mend true`; no `mend false`) — any number of changes, each any sequence of
+    stores, any number of extra jobs, interleaved in any order at the granularity of single stores,
+    single reads and single I/O calls — once at least one job was submitted, every submitted job
+    has finished and no change is in progress, the state file is the complete serialisation of the
+    present memory. -/
+theorem C15_converge (ser : Vec → Content) (init : Option Content) (mem0 : Vec) (ls : List Label)
+    (s : Sys) (h : exec true true ser ls (initSys init mem0) = some s)
+    (hq : ∀ l ∈ ls, l.quiet = true) (hjobs : ∃ j, s.jobs j ≠ .unspawned) (hdone : Quiescent s)
+    (hstop : s.chg = false) : s.target = some (ser s.mem) := by
+  have sinv := snapInv_exec ls (atomInv_init ser init mem0) (snapInv_init ser init mem0) h
+  have hlat : latest s = s.mem := headD_of_head? (sinv.memHist hstop)
+  have hc := conv_exec (init := init) ls (atomInv_init ser init mem0) (snapInv_init ser init mem0)
+    (mutex_init init mem0) (conv_init ser init mem0) hq h
+  rw [← hlat]
   rcases hc with hc | ⟨j, hc⟩ | ⟨j, hc⟩ | ⟨hc, _⟩
   · obtain ⟨j, hj⟩ := hjobs
     exact absurd (hc j) hj
@@ -70,30 +170,44 @@ theorem C15_converge (snap : Nat → Content) (init : Option Content) (ls : List
 
 /-- What the order "change the state, then submit the save" buys, in full generality (repaired
     code): after an arbitrary history — faults, failed saves, even state changes whose save was
-    submitted too early or never (`change`) — one save submitted *after* the last state change,
-    followed by fault-free steps only, brings the file to the latest state once every job has
-    finished.  Every save-scheduling site of the code has this order (`pair`, `unpair`,
-    pair-verify's identifier back-fill, `config_changed`, `async_start`). -/
-theorem C15_converge_after_save (snap : Nat → Content) (init : Option Content)
+    submitted too early or never (`mend false`) — one save submitted *after* the last state change
+    (`spawn`, or the `mend true` that ends it), followed by fault-free steps only, brings the file
+    to the present memory once every job has finished.  Every save-scheduling site of the code has
+    this order (`pair`, `unpair`, pair-verify's identifier back-fill, `config_changed`,
+    `async_start`). -/
+theorem C15_converge_after_save (ser : Vec → Content) (init : Option Content) (mem0 : Vec)
     (hist post : List Label) (l : Label) (s1 s : Sys)
-    (h1 : exec true snap hist (initSys init) = some s1)
-    (hl : l = .spawn ∨ l = .mutate)
-    (h2 : exec true snap (l :: post) s1 = some s) (hq : ∀ l' ∈ post, l'.quiet = true)
-    (hjobs : ∃ j, s.jobs j ≠ .unspawned) (hdone : Quiescent s) :
-    s.target = some (snap s.ver) := by
-  have ha := atomInv_exec hist (atomInv_init snap init) h1
-  have hm := mutex_exec hist (mutex_init init) h1
+    (h1 : exec true true ser hist (initSys init mem0) = some s1)
+    (hl : l = .spawn ∨ l = .mend true)
+    (h2 : exec true true ser (l :: post) s1 = some s) (hq : ∀ l' ∈ post, l'.quiet = true)
+    (hjobs : ∃ j, s.jobs j ≠ .unspawned) (hdone : Quiescent s) (hstop : s.chg = false) :
+    s.target = some (ser s.mem) := by
+  have ha := atomInv_exec hist (atomInv_init ser init mem0) h1
+  have hsn := snapInv_exec hist (atomInv_init ser init mem0) (snapInv_init ser init mem0) h1
+  have hm := mutex_exec hist (mutex_init init mem0) h1
   simp only [exec] at h2
   split at h2
   · next s2 hs2 =>
-    have hc2 : Conv snap s2 := by
-      unfold step at hs2
-      split at hs2
-      · cases hs2
-      · rcases hl with hl | hl <;> subst hl <;> injection hs2 with hs2 <;> subst hs2
-        · exact conv_spawn 0
-        · exact conv_spawn 1
-    have hc := conv_exec post (atomInv_step ha hs2) (mutex_step hm hs2) hc2 hq h2
+    have hc2 : Conv ser s2 := by
+      obtain ⟨_, hc⟩ := step_cases hs2
+      rcases hc with ⟨e, _⟩ | ⟨c, e, _⟩ | ⟨b, e, _, e'⟩ | ⟨_, e'⟩ | ⟨j, e, _⟩ | ⟨j, e, _⟩ | ⟨e, _⟩ |
+        ⟨j, e, _⟩
+      · rcases hl with hl | hl <;> rw [hl] at e <;> cases e
+      · rcases hl with hl | hl <;> rw [hl] at e <;> cases e
+      · rcases hl with hl | hl <;> rw [hl] at e
+        · cases e
+        · injection e with e; subst e; subst e'; exact conv_spawn
+      · subst e'; exact conv_spawn
+      · rcases hl with hl | hl <;> rw [hl] at e <;> cases e
+      · rcases hl with hl | hl <;> rw [hl] at e <;> cases e
+      · rcases hl with hl | hl <;> rw [hl] at e <;> cases e
+      · rcases hl with hl | hl <;> rw [hl] at e <;> cases e
+    have ha2 := atomInv_step ha hs2
+    have hsn2 := snapInv_step ha hsn hs2
+    have hc := conv_exec post ha2 hsn2 (mutex_step hm hs2) hc2 hq h2
+    have sinv := snapInv_exec post ha2 hsn2 h2
+    have hlat : latest s = s.mem := headD_of_head? (sinv.memHist hstop)
+    rw [← hlat]
     rcases hc with hc | ⟨j, hc⟩ | ⟨j, hc⟩ | ⟨hc, _⟩
     · obtain ⟨j, hj⟩ := hjobs
       exact absurd (hc j) hj
@@ -102,83 +216,187 @@ theorem C15_converge_after_save (snap : Nat → Content) (init : Option Content)
     · exact hc
   · cases h2
 
-/-- The opposite order at a single site breaks convergence even with the lock: the save is
+/-- The opposite order at a single site breaks convergence even with both locks: the save is
     submitted, the worker runs it to the end at once, and only then the state is changed
-    (`spawn; …; change`): all jobs have finished and the file is one version behind.  (The same
-    trace is what a site that never submits a save looks like after an earlier save.) -/
+    (`spawn; …; mbegin; mwrite; mend false`): all jobs have finished and the file is one change
+    behind.  (The same trace is what a site that never submits a save looks like after an earlier
+    save.) -/
 theorem C15_save_before_change_counterexample :
-    ∃ s, exec true demoSnap ([.spawn] ++ List.replicate 9 (.adv 0) ++ [.change]) (initSys none)
-        = some s ∧ quiescentB s = true ∧ s.ver = 1 ∧ s.target = some (demoSnap 0) ∧
-      s.target ≠ some (demoSnap s.ver) := by
-  refine ⟨_, rfl, by decide, by decide, by decide, by decide⟩
+    ∃ s, exec true true demoSer ([.spawn] ++ List.replicate 13 (.adv 0) ++ changeL [0, 1])
+          (initSys none [0, 0]) = some s ∧
+      quiescentB s = true ∧ s.chg = false ∧ s.mem = [1, 1] ∧ s.target = some (demoSer [0, 0]) ∧
+      s.target ≠ some (demoSer s.mem) := by
+  refine ⟨_, rfl, by decide, by decide, by decide, by decide, by decide⟩
 
-/-- The lock never wedges the saving (repaired code, all schedules, faults included): as long as
-    the process lives and some submitted job has not finished, some job can take a step — the
-    lock is held only by a job that is inside the critical section and can always move on, and
-    every path out of it (return, re-raise, failing cleanup) releases the lock.  So the
-    quiescent states `C15_converge` speaks about are always reachable. -/
-theorem C15_progress (snap : Nat → Content) (init : Option Content) (ls : List Label) (s : Sys)
-    (h : exec true snap ls (initSys init) = some s) (hc : s.crashed = false)
+/-- A save job that is dropped while it is still queued breaks convergence, both locks
+    notwithstanding: a pairing change submits its save, every worker of the pool is busy, the driver
+    stops and its pool is shut down with the queue discarded (`cancel 0`): every submitted job has
+    "finished", no change is in progress, and the file does not hold the change.  `C15_converge` therefore
+    asks for schedules without `cancel` (`Label.quiet`): the obligation on the stop path is to run, not
+    drop, what was submitted (`executor.shutdown()` waits for queued jobs; tied by the harness's
+    `lifecycle` stream, which judges the file after `start()` has returned). -/
+theorem C15_cancelled_save_counterexample :
+    ∃ s, exec true true demoSer (mutateL [0, 1] ++ [.cancel 0]) (initSys (some (demoSer [0, 0])) [0, 0])
+          = some s ∧
+      quiescentB s = true ∧ s.chg = false ∧ s.mem = [1, 1] ∧ s.target = some (demoSer [0, 0]) ∧
+      s.target ≠ some (demoSer s.mem) := by
+  refine ⟨_, rfl, by decide, by decide, by decide, by decide, by decide⟩
+
+/-- The locks never wedge the saving (repaired code, all schedules, faults included): as long as the
+    process lives and some submitted job has not finished, something can move — a job can take a
+    step, or the change in progress can end.  The persist lock is held only by a job that is inside
+    the critical section; such a job can always move on, except that it may wait for `state.lock`,
+    which is held either by that very job or by a change in progress, whose end releases it; and
+    every path out of either section (return, re-raise, failing cleanup) releases its lock.  So
+    the quiescent states `C15_converge` speaks about are always reachable. -/
+theorem C15_progress (ser : Vec → Content) (init : Option Content) (mem0 : Vec) (ls : List Label)
+    (s : Sys) (h : exec true true ser ls (initSys init mem0) = some s) (hc : s.crashed = false)
     (hj : ∃ j, s.jobs j ≠ .unspawned ∧ (s.jobs j).isDone = false) :
-    ∃ j s', step true snap s (.adv j) = some s' := by
-  have hm := mutex_exec ls (mutex_init init) h
-  have hh := held_exec (init := init) ls (atomInv_init snap init) (mutex_init init)
-    (held_init init) h
-  simp only [step, hc]
+    ∃ l s', step true true ser s l = some s' ∧ (l = .mend true ∨ ∃ j, l = .adv j) := by
+  have hm := mutex_exec ls (mutex_init init mem0) h
+  have hh := held_exec (init := init) ls (atomInv_init ser init mem0) (mutex_init init mem0)
+    (held_init init mem0) h
+  have sinv := snapInv_exec ls (atomInv_init ser init mem0) (snapInv_init ser init mem0) h
   cases hl : s.lock with
   | some i =>
-    obtain ⟨s', hs'⟩ := adv_enabled_of_inCS (snap := snap) (hh i hl)
-    exact ⟨i, s', by simpa using hs'⟩
+    have hcs := hh i hl
+    by_cases hfree : s.jobs i = .snapshot → s.slock = none
+    · obtain ⟨s', hs'⟩ := adv_enabled_of_inCS (snap := ser) hcs hfree
+      exact ⟨.adv i, s', by simp only [step, hc]; simpa using hs', Or.inr ⟨i, rfl⟩⟩
+    · -- job i waits for state.lock: who holds it?
+      have hsnap : s.jobs i = .snapshot := by
+        apply Classical.byContradiction; intro hn; exact hfree (fun e => absurd e hn)
+      cases hsl : s.slock with
+      | none => exact absurd (fun _ => hsl) hfree
+      | some o =>
+        cases o with
+        | job k =>
+          have hk := sinv.holder k hsl
+          have : k = i := mutex_unique hm (Pc.inCS_of_inRead hk) hcs
+          subst this
+          rw [hsnap] at hk; simp [Pc.inRead] at hk
+        | changer =>
+          have hchg := sinv.heldChg hsl
+          exact ⟨.mend true, _, by simp only [step, hc, hchg]; rfl, Or.inl rfl⟩
   | none =>
     obtain ⟨j, hsp, hnd⟩ := hj
     by_cases hcs : (s.jobs j).inCS = true
     · have := hm j hcs
       rw [hl] at this; cases this
-    · refine ⟨j, ?_⟩
+    · refine ⟨.adv j, ?_⟩
+      simp only [step, hc]
       cases hpc : s.jobs j <;> simp_all [Pc.inCS, Pc.isDone, adv]
 
-/-! ### the code as shipped (no lock): the reordering counterexample -/
+/-! ### the code as first shipped (no lock at all): the reordering counterexample -/
 
-/-- pairing 1 (job 0 submitted); job 0 creates its temp and snapshots version 1; pairing 2 (job 1
+/-- pairing 1 (job 0 submitted); job 0 creates its temp and reads version 1; pairing 2 (job 1
     submitted); job 1 runs start to finish and installs version 2; job 0 resumes, writes its stale
     snapshot and replaces the file. -/
 def reorderSchedule : List Label :=
-  [.mutate, .adv 0, .adv 0, .adv 0, .mutate] ++ List.replicate 9 (.adv 1) ++
-    List.replicate 6 (.adv 0)
+  mutateL [0, 1] ++ List.replicate 6 (.adv 0) ++ mutateL [0, 1] ++ List.replicate 13 (.adv 1) ++
+    List.replicate 7 (.adv 0)
 
-/-- Without the lock the fault-free `reorderSchedule` ends, with both jobs finished, in a state
-    file that holds version 1 while memory is at version 2 (the second controller is missing).
-    The same schedule is forced on the real implementation by the harness. -/
+/-- Without the persist lock the fault-free `reorderSchedule` ends, with both jobs finished, in a
+    state file that holds the first change while memory has both (the second controller is
+    missing).  The same schedule is forced on the real implementation by the harness. -/
 theorem C15_legacy_reorder_counterexample :
-    ∃ s, exec false demoSnap reorderSchedule (initSys none) = some s ∧
-      (∀ l ∈ reorderSchedule, l.quiet = true) ∧ quiescentB s = true ∧ s.njobs = 2 ∧ s.ver = 2 ∧
-      s.target = some (demoSnap 1) ∧ s.target ≠ some (demoSnap s.ver) := by
-  refine ⟨_, rfl, by decide, by decide, by decide, by decide, by decide, by decide⟩
+    ∃ s, exec false false demoSer reorderSchedule (initSys none [0, 0]) = some s ∧
+      (∀ l ∈ reorderSchedule, l.quiet = true) ∧ quiescentB s = true ∧ s.njobs = 2 ∧
+      s.chg = false ∧ s.mem = [2, 2] ∧
+      s.target = some (demoSer [1, 1]) ∧ s.target ≠ some (demoSer s.mem) := by
+  refine ⟨_, rfl, by decide, by decide, by decide, by decide, by decide, by decide, by decide⟩
 
-/-- With the lock the same schedule is not executable: job 1 blocks at the lock (label 5). -/
+/-- With the persist lock the same schedule is not executable: job 1 blocks at the lock
+    (label 14). -/
 theorem C15_locked_blocks_reorder :
-    firstBlocked true demoSnap reorderSchedule (initSys none) 0 = some 5 := by decide
+    firstBlocked true false demoSer reorderSchedule (initSys none [0, 0]) 0 = some 14 := by decide
+
+/-! ### the code after the first repair (persist lock, no `state.lock`): the mixed snapshot -/
+
+/-- a save job (submitted by an earlier change) has read component 0; a pairing change stores into
+    both components and submits job 1; job 0 reads component 1, writes what it has read and installs
+    it; the process dies before job 1 runs. -/
+def mixedSchedule : List Label :=
+  [.spawn] ++ List.replicate 4 (.adv 0) ++ mutateL [0, 1] ++ List.replicate 9 (.adv 0) ++ [.crash]
+
+/-- Without `state.lock` a change that lands between two reads of one save makes the save install
+    a mix of two states: after `mixedSchedule` the state file is a complete document that is neither
+    its initial content nor the serialisation of any state that existed — and the process is dead,
+    so that is what the next start loads.  The same schedule is forced on the real implementation
+    by the harness (signature `C15:state-file-mixes-two-states`). -/
+theorem C15_legacy_mixed_counterexample :
+    ∃ s, exec true false demoSer mixedSchedule (initSys (some (demoSer [0, 0])) [0, 0]) = some s ∧
+      s.crashed = true ∧ s.hist = [[1, 1], [0, 0]] ∧ s.target = some (demoSer [0, 1]) ∧
+      ¬ (s.target = some (demoSer [0, 0]) ∨ ∃ v, v ∈ s.hist ∧ s.target = some (demoSer v)) := by
+  refine ⟨_, rfl, by decide, by decide, by decide, by decide⟩
+
+/-- With `state.lock` the same schedule is not executable: the pairing change waits for the save to
+    finish its reads (label 5). -/
+theorem C15_slock_blocks_mixed :
+    firstBlocked true true demoSer mixedSchedule (initSys (some (demoSer [0, 0])) [0, 0]) 0
+      = some 5 := by decide
+
+/-- Convergence does not depend on `state.lock`: with the persist lock alone (the code after the
+    first repair, where a save may read a mix of two states) the same statement holds — a change that
+    disturbs the reads of a running save submits, when it ends, a job of its own, and that job can take
+    the persist lock only after the disturbed save has released it, so it reads after the change.  What
+    the missing `state.lock` costs is atomicity (`C15_legacy_mixed_counterexample`), not convergence. -/
+theorem C15_converge_without_state_lock (ser : Vec → Content) (init : Option Content) (mem0 : Vec)
+    (ls : List Label) (s : Sys) (h : exec true false ser ls (initSys init mem0) = some s)
+    (hq : ∀ l ∈ ls, l.quiet = true) (hjobs : ∃ j, s.jobs j ≠ .unspawned) (hdone : Quiescent s)
+    (hstop : s.chg = false) : s.target = some (ser s.mem) := by
+  have hc := convU_exec (init := init) ls (atomInv_init ser init mem0) (mutex_init init mem0)
+    (convU_init ser init mem0) hq h
+  rcases hc with hc | hc | ⟨j, hc⟩ | ⟨j, hc⟩ | ⟨hc, _⟩
+  · obtain ⟨j, hj⟩ := hjobs
+    exact absurd (hc j) hj
+  · rw [hstop] at hc; cases hc
+  · rcases hdone j with e | ⟨r, e⟩ <;> simp [e, Pc.early] at hc
+  · rcases hdone j with e | ⟨r, e⟩ <;> simp [e, Pc.good, Pc.carries] at hc
+  · exact hc
+
+/-- non-vacuity: the mixed-snapshot schedule, continued without the kill until job 1 has run, ends with
+    the file equal to memory although job 0 installed a mix in between -/
+example : ∃ s, exec true false demoSer (mixedSchedule.dropLast ++ List.replicate 13 (.adv 1))
+      (initSys (some (demoSer [0, 0])) [0, 0]) = some s ∧ quiescentB s = true ∧ s.chg = false ∧
+      s.mem = [1, 1] ∧ s.target = some (demoSer [1, 1]) :=
+  ⟨_, rfl, by decide, by decide, by decide, by decide⟩
 
 /-! ### non-vacuity -/
 
-/-- a locked, fault-free two-job schedule with a pairing change while job 0 holds the lock -/
+/-- a fault-free two-job schedule of the repaired code with a pairing change while job 0 holds the
+    persist lock (after it has released `state.lock`) -/
 def lockedSchedule : List Label :=
-  [.mutate, .adv 0, .adv 0, .adv 0, .mutate] ++ List.replicate 6 (.adv 0) ++
-    List.replicate 9 (.adv 1)
+  mutateL [0, 1] ++ List.replicate 9 (.adv 0) ++ mutateL [1] ++ List.replicate 4 (.adv 0) ++
+    List.replicate 13 (.adv 1)
 
-example : ∃ s, exec true demoSnap lockedSchedule (initSys none) = some s ∧ quiescentB s = true ∧
-    s.ver = 2 ∧ s.target = some (demoSnap 2) :=
-  ⟨_, rfl, by decide, by decide, by decide⟩
+example : ∃ s, exec true true demoSer lockedSchedule (initSys none [0, 0]) = some s ∧
+    (∀ l ∈ lockedSchedule, l.quiet = true) ∧ quiescentB s = true ∧ s.chg = false ∧
+    s.mem = [1, 2] ∧ s.target = some (demoSer [1, 2]) :=
+  ⟨_, rfl, by decide, by decide, by decide, by decide, by decide⟩
+
+/-- a job that has read one component while no change is in progress (`C15_snapshot_is_a_state`) -/
+example : ∃ s, exec true true demoSer (mutateL [0, 1] ++ List.replicate 4 (.adv 0))
+      (initSys none [0, 0]) = some s ∧ s.jobs 0 = .reading [1] ∧ s.chg = false :=
+  ⟨_, rfl, by decide, by decide⟩
 
 /-- a write fault in job 0: handled failure, temp removed, target still the initial content -/
-example : ∃ s, exec true demoSnap [.mutate, .adv 0, .adv 0, .adv 0, .adv 0, .fault 0, .adv 0,
-      .adv 0, .adv 0] (initSys (some [7])) = some s ∧ s.jobs 0 = .done .raised ∧
-    s.temps 0 = none ∧ s.target = some [7] :=
+example : ∃ s, exec true true demoSer (mutateL [0] ++ List.replicate 7 (.adv 0) ++
+      [.fault 0, .adv 0, .adv 0, .adv 0]) (initSys (some [7]) [0, 0]) = some s ∧
+    s.jobs 0 = .done .raised ∧ s.temps 0 = none ∧ s.target = some [7] ∧ s.slock = none :=
+  ⟨_, rfl, by decide, by decide, by decide, by decide⟩
+
+/-- a crash in the middle of the writes: partial temp stays, target untouched; the next start loads
+    the state the accessory started with (`C15_crash_recovery`) -/
+example : ∃ s, exec true true demoSer (mutateL [0] ++ List.replicate 7 (.adv 0) ++ [.crash])
+      (initSys (some (demoSer [0, 0])) [0, 0]) = some s ∧ s.temps 0 = some [1] ∧
+      s.target = some (demoSer [0, 0]) ∧ s.target.bind some = some [0, 0] :=
   ⟨_, rfl, by decide, by decide, by decide⟩
 
-/-- a crash in the middle of the writes: partial temp stays, target untouched -/
-example : ∃ s, exec true demoSnap [.mutate, .adv 0, .adv 0, .adv 0, .adv 0, .crash]
-      (initSys (some [7])) = some s ∧ s.temps 0 = some [2] ∧ s.target = some [7] :=
-  ⟨_, rfl, by decide, by decide⟩
+/-- progress: a job waiting for `state.lock` while a change is in progress; the change can end -/
+example : ∃ s, exec true true demoSer ([.spawn, .adv 0, .adv 0, .mbegin, .mwrite 0])
+      (initSys none [0, 0]) = some s ∧ s.jobs 0 = .snapshot ∧ s.slock = some .changer ∧
+      adv true true demoSer s 0 = none ∧ (step true true demoSer s (.mend true)).isSome = true :=
+  ⟨_, rfl, by decide, by decide, by decide, by decide⟩
 
 end Hap.Persist
